@@ -873,7 +873,8 @@ func (nfs *Nfs) NFSPROC3_COMMIT(args nfstypes.COMMIT3args) nfstypes.COMMIT3res {
 		errRet(op, &reply.Status, nfstypes.NFS3ERR_INVAL)
 		return reply
 	}
-	if uint64(args.Offset)+uint64(args.Count) > ip.Size {
+	if util.SumOverflows(uint64(args.Offset), uint64(args.Count)) ||
+		uint64(args.Offset)+uint64(args.Count) > ip.Size {
 		errRet(op, &reply.Status, nfstypes.NFS3ERR_INVAL)
 		return reply
 	}
